@@ -427,7 +427,17 @@ impl Writer {
         }
         // Append log entry
         let datafile_entry = DataFileEntry { tstamp, key, value };
-        let index = self.writer.append(&datafile_entry)?;
+        let index = match self.writer.append(&datafile_entry) {
+            Ok(index) => index,
+            Err(e) => {
+                // A part of the entry may have reached the file. Nothing may be appended after it:
+                // later entries would not be where the writer believes they are, and a restart
+                // could not read past the torn entry, which it ignores at the end of a file. Using
+                // up a file ID makes the next write switch to a new active file
+                self.next_fileid = self.next_fileid.max(self.active_fileid + 2);
+                return Err(e.into());
+            }
+        };
         // Record number of bytes have been written to the active file
         self.written_bytes += index.len;
 
